@@ -15,7 +15,7 @@ def gen_doc(rng, small=False):
     ice = rng.choice([0, 0, 1, 2])
     pm = rng.choice([1, 1, 0, 3, 2])
     fm = rng.choice([0, 1, 3, 3, 2])
-    sauce = rng.choice([0, 0, 1, 1, 2])
+    sauce = rng.choice([0, 0, 0, 1, 1, 1, 1, 1]) if rng.random() < 0.97 else 2
     toks = ['B', w, h, ice, pm, fm, sauce]
     for k in range(nl):
         if k == 0 and rng.random() < 0.7:
